@@ -155,6 +155,10 @@ func renderOne(o Op) string {
 		switch o.N {
 		case 1: // arithmetic assignment (numeric value)
 			return "(( " + o.Name + " = " + o.Src + " ))"
+		case 3: // the assignment happens inside the expansion of an argument
+			return ": $(( " + o.Name + " = " + o.Src + " ))"
+		case 4:
+			return "echo \"$(( " + o.Name + " = " + o.Src + " ))\""
 		case 2:
 			return "for " + o.Name + " in " + q(o.Src) + "; do :; done"
 		}
@@ -467,9 +471,9 @@ func (g *Gen) Undo(k int) (Op, Op) {
 
 // SetStr: an operation that ends in Runner.setVar(name, string): read, arithmetic assignment, for.
 func (g *Gen) SetStr(name string) Op {
-	k := g.R.IntN(3)
-	if k == 1 {
-		return Op{Op: "setstr", Name: name, N: 1, Src: g.pick([]string{"7", "0", "42"})}
+	k := g.R.IntN(5)
+	if k == 1 || k >= 3 {
+		return Op{Op: "setstr", Name: name, N: k, Src: g.pick([]string{"7", "0", "42"})}
 	}
 	return Op{Op: "setstr", Name: name, N: k, Src: g.pick(values)}
 }
